@@ -22,7 +22,8 @@ Three searches, one oracle (CPython executes the very text Griffe visits, then `
 Every annotated signature is additionally rendered with string-literal annotations, once in a module without PEP 563 (CPython
 then reports the string's content) and once under PEP 563 enabled after a docstring / comments / other __future__ imports
 (CPython then reports the literal's source text); property accessors are also stacked with label-producing decorators
-(abstractmethod, cache, lru_cache) or written as `async def`; every lambda Griffe reports is also re-evaluated from its rendered text and must have the
+(abstractmethod, cache, lru_cache) or written as `async def`; the three lambda renderings exist with and without PEP 563, and the
+default pool holds strings that would parse as expressions ('utf-8', 'None', 'a.b', 'int'); every lambda Griffe reports is also re-evaluated from its rendered text and must have the
 signature of CPython's lambda. Failures are re-checked alone in a process forked before the shard visited anything: only
 failures that reproduce there are reported with their case (see _Pristine).
 """
@@ -79,7 +80,7 @@ BUDGET_S = {"quick": 85.0, "thorough": 1500.0}
 
 DEF_RENDERINGS = ("def", "async-def", "method", "staticmethod", "classmethod")
 QUOTED_RENDERINGS = ("def-string-annotations", "def-string-annotations-pep563")
-LAMBDA_RENDERINGS = ("lambda-attr", "lambda-class-attr", "lambda-default")
+LAMBDA_RENDERINGS = ("lambda-attr", "lambda-class-attr", "lambda-default", "lambda-attr-no-pep563", "lambda-class-attr-no-pep563", "lambda-default-no-pep563")
 
 
 # ----------------------------------------------------------------------------- CPython side
@@ -245,15 +246,28 @@ def check_sig(m: dict) -> list[Fail]:
         pmod = griffe_visit(pcode)
         fails += function_fails("def-string-annotations-pep563", repr(pcode), member(pmod, "fq"), pns["fq"])
     if lambdas:
-        la = member(mod, "la")
-        cla = cls and member(cls, "la")
-        ld = member(mod, "ld")
-        fails += lambda_fails("lambda-attr", f"la = lambda {ptxt}: 0", getattr(la, "value", None), ns["la"])
-        fails += lambda_fails("lambda-class-attr", f"C.la = lambda {ptxt}: 0", getattr(cla, "value", None), pyc.__dict__["la"])
-        if ld is None or getattr(ld.kind, "value", None) != "function" or "h" not in ld.parameters:
-            fails.append(Fail("member", "lambda-default", f"def ld(h=lambda {ptxt}: 0, /): Griffe has {ld!r}"))
-        else:
-            fails += lambda_fails("lambda-default", f"def ld(h=lambda {ptxt}: 0, /)", ld.parameters["h"].default, inspect.signature(ns["ld"]).parameters["h"].default)
+        fails += lambda_rendering_fails(mod, ns, ptxt, "")
+        # the same three lambda renderings in a module WITHOUT PEP 563 (string defaults of lambda parameters must stay strings)
+        bare = S.render_params(m, annotations=False)
+        sep = " " if bare else ""
+        lcode = f"class C:\n    la = lambda{sep}{bare}: 0\nla = lambda{sep}{bare}: 0\ndef ld(h=lambda{sep}{bare}: 0, /): ...\n"
+        fails += lambda_rendering_fails(griffe_visit(lcode), cpython_exec(lcode), ptxt, "-no-pep563")
+    return fails
+
+
+def lambda_rendering_fails(mod, ns: dict, ptxt: str, suffix: str) -> list[Fail]:
+    fails: list[Fail] = []
+    cls = member(mod, "C")
+    pyc = ns["C"]
+    la = member(mod, "la")
+    cla = cls and member(cls, "la")
+    ld = member(mod, "ld")
+    fails += lambda_fails("lambda-attr" + suffix, f"la = lambda {ptxt}: 0", getattr(la, "value", None), ns["la"])
+    fails += lambda_fails("lambda-class-attr" + suffix, f"C.la = lambda {ptxt}: 0", getattr(cla, "value", None), pyc.__dict__["la"])
+    if ld is None or getattr(ld.kind, "value", None) != "function" or "h" not in ld.parameters:
+        fails.append(Fail("member", "lambda-default" + suffix, f"def ld(h=lambda {ptxt}: 0, /): Griffe has {ld!r}"))
+    else:
+        fails += lambda_fails("lambda-default" + suffix, f"def ld(h=lambda {ptxt}: 0, /)", ld.parameters["h"].default, inspect.signature(ns["ld"]).parameters["h"].default)
     return fails
 
 
